@@ -437,8 +437,16 @@ func runC06(c *mc.Ctx) {
 					m[pos] = byte(v)
 					raws = append(raws, c06Raw{StrHex: mc.Hex(m), Why: "one character of the string replaced by another byte value"})
 					raws = append(raws, c06Raw{StrHex: mc.Hex([]byte(str[:pos] + string([]byte{byte(v)}) + str[pos:])), Why: "one byte inserted into the string"})
+					if pos == len(str)-1 { // ... and appended behind the last character
+						raws = append(raws, c06Raw{StrHex: mc.Hex([]byte(str + string([]byte{byte(v)}))), Why: "one byte appended to the string"})
+					}
 				}
 			}
+		}
+		for _, fr := range []string{" ", "\t", "\n", "\r", "\r\n", "\x00", "\n\n", "\ufeff"} { // framing a line-oriented reader might strip
+			raws = append(raws, c06Raw{StrHex: mc.Hex([]byte(str + fr)), Why: "valid string followed by white space / a terminator"},
+				c06Raw{StrHex: mc.Hex([]byte(fr + str)), Why: "valid string preceded by white space / a terminator"},
+				c06Raw{StrHex: mc.Hex([]byte(fr + str + fr)), Why: "valid string framed by white space / terminators"})
 		}
 		for _, m := range runeSubstitutions(str) {
 			raws = append(raws, c06Raw{StrHex: mc.Hex([]byte(m)), Why: "one character of the string replaced by a multi-byte character a rune-wise decoder may take for it"})
